@@ -75,6 +75,7 @@ def case_strategy(draw, tier):
         'faults': faults,
         'starts': draw(st.lists(st.sampled_from([0, 0, 0, 20, 150, 600]), min_size=6, max_size=6)),
         'ipc': draw(st.booleans()),
+        'bal_prefix': draw(st.sampled_from([False, False, True])),     # topo tee: the origin is the output of a load-balanced section
     }
 
 
@@ -83,7 +84,15 @@ def build_nodes(case):
     brs = case['branches']
     bids = [f'B{i}' for i in range(len(brs))]
     st_ = case['starts']
-    if case['topo'] == 'tee':
+    if case['topo'] == 'tee' and case.get('bal_prefix'):
+        # the stream that is split and rejoined comes out of a load-balanced section (splitter -> 2 workers -> balanced join): every message
+        # below it carries the 'balanced' marker
+        nodes.append({'id': 'S0', 'beh': {'kind': 'src', 'n': case['n'], 'work': case['src']['work']}, 'nout': 2, 'obal': True, 'required': ['W0', 'W1'], 'start': st_[0]})
+        for i in (0, 1):
+            nodes.append({'id': f'W{i}', 'sources': [{'from': 'S0', 'k': i}], 'beh': {'kind': 'xf', 'work': [0, 10][i:i + 1]}, 'required': ['S'], 'start': st_[0]})
+        nodes.append({'id': 'S', 'sources': [{'from': 'W0', 'k': 0}, {'from': 'W1', 'k': 0}], 'sbal': True, 'beh': {'kind': 'xf', 'work': [0]},
+                      'required': bids if case['src']['required'] else None, 'start': st_[0]})
+    elif case['topo'] == 'tee':
         nodes.append({'id': 'S', 'beh': {'kind': 'src', 'n': case['n'], 'work': case['src']['work']},
                       'required': bids if case['src']['required'] else None, 'start': st_[0]})
     for i, b in enumerate(brs):
@@ -225,6 +234,8 @@ def run_case(case):
         skipped = any(b['skip'] for b in case['branches']) and case['topo'] == 'tee'
         varied = any(b['by_seq'] for b in case['branches'])
         classes = [f'topo {case["topo"]}{len(case["branches"])}', f'net {case["net"]["cls"]}']
+        if case.get('bal_prefix') and case['topo'] == 'tee':
+            classes.append('origin is the output of a load-balanced section')
         if skipped: classes.append('branch skips ids')
         if drops: classes.append('publish dropped')
         if obs.get('timeout_with_data'): classes.append('recv timeout with data buffered')
